@@ -314,10 +314,16 @@ namespace
         else if (less(last, memory))
             // insert at the end
             return {last, end_node};
-        else if (less(last_dealloc_prev, memory) && less(memory, last_dealloc))
+
+        // last_dealloc(_prev) can be the proxy nodes, their addresses say nothing about the order:
+        // everything is after the begin proxy and before the end proxy
+        auto after_prev  = last_dealloc_prev == begin_node || less(last_dealloc_prev, memory);
+        auto before_last = last_dealloc == end_node || less(memory, last_dealloc);
+
+        if (after_prev && before_last)
             // insert before last_dealloc
             return {last_dealloc_prev, last_dealloc};
-        else if (less(memory, last_dealloc))
+        else if (before_last)
             // insert into [first, last_dealloc_prev]
             return find_pos_interval(info, memory, begin_node, first, last_dealloc_prev,
                                      last_dealloc);
